@@ -81,6 +81,24 @@ func checkC01(c *Ctx) {
 	if sReader == nil || sWriter == nil || cWriter == nil || cReader == nil {
 		return
 	}
+	// the loop function: the codec may be used by a helper without a loop of its own (writeRequest, readReply) - the
+	// loop function is then its single caller that loops
+	lift := func(f *ssa.Function) *ssa.Function {
+		for i := 0; i < 3 && len(loopHeaders(f)) == 0; i++ {
+			var callers []*ssa.Function
+			for _, ed := range p.callersOf(f) {
+				if !p.isTestFn(ed.Caller.Func) {
+					callers = append(callers, ed.Caller.Func)
+				}
+			}
+			if len(callers) != 1 {
+				break
+			}
+			f = callers[0]
+		}
+		return f
+	}
+	sReader, sWriter, cWriter, cReader = lift(sReader), lift(sWriter), lift(cWriter), lift(cReader)
 	// drains: non-blocking receivers
 	isDrain := func(op chanOp) bool { return op.InSelect != nil && !op.Blocking }
 	type want struct {
@@ -321,6 +339,31 @@ func checkC01(c *Ctx) {
 				enc = call
 			}
 		})
+		// the encode may live in a helper of the loop (writeRequest): the call to a helper that encodes exactly once,
+		// outside any loop of its own, stands for the Encode
+		if enc == nil {
+			eachInstr(cWriter, func(_ *ssa.BasicBlock, _ int, in ssa.Instruction) {
+				call, ok := in.(*ssa.Call)
+				if !ok {
+					return
+				}
+				g := calleeFn(call.Common())
+				if g == nil || !isModFn(g) || g.Blocks == nil {
+					return
+				}
+				n := 0
+				for _, h := range append([]*ssa.Function{g}, staticCalleesDeep(g, 1)...) {
+					eachInstr(h, func(_ *ssa.BasicBlock, _ int, x ssa.Instruction) {
+						if hc, ok := x.(*ssa.Call); ok && isCallNamed(hc, "Encode") {
+							n++
+						}
+					})
+				}
+				if n == 1 && len(loopHeaders(g)) == 0 {
+					enc = call
+				}
+			})
+		}
 		if recv == nil || enc == nil {
 			c.Fail("R2", "backend writer shape", cWriter.Pos(), "the backend writer does not dequeue and encode")
 			return
@@ -390,8 +433,30 @@ func checkC01(c *Ctx) {
 		}
 		c.Check(path == nil && okSel, "R2", "backend writer: an encoded request always gets its FIFO entry", enc.Pos(), "after Encode the request is handed to the sent-queue on every path that continues the loop", "a request that is already on the wire can continue the loop without being put on the sent-queue: the backend still answers it, no FIFO entry exists, and every later reply on that shared backend connection is paired with the wrong request (across all downstream connections)")
 		c.Check(enc.Call.Args[1] != nil && func() bool {
-			bc, ok := enc.Call.Args[1].(*ssa.Call)
-			return ok && isCallNamed(bc, "Body") && bc.Call.Args[0] == req
+			if isCallNamed(enc, "Encode") {
+				bc, ok := enc.Call.Args[1].(*ssa.Call)
+				return ok && isCallNamed(bc, "Body") && bc.Call.Args[0] == req
+			}
+			// through a helper: the dequeued request is the helper's argument and the helper encodes that
+			// parameter's Body()
+			g := calleeFn(enc.Common())
+			for i, a := range enc.Call.Args {
+				if a != req || g == nil || i >= len(g.Params) {
+					continue
+				}
+				okBody := false
+				for _, h := range append([]*ssa.Function{g}, staticCalleesDeep(g, 1)...) {
+					eachInstr(h, func(_ *ssa.BasicBlock, _ int, x ssa.Instruction) {
+						if hc, ok := x.(*ssa.Call); ok && isCallNamed(hc, "Encode") {
+							if bc, ok := hc.Call.Args[1].(*ssa.Call); ok && isCallNamed(bc, "Body") && bc.Call.Args[0] == ssa.Value(g.Params[i]) {
+								okBody = true
+							}
+						}
+					})
+				}
+				return okBody
+			}
+			return false
 		}(), "R2", "backend writer encodes the dequeued request's body", enc.Pos(), "Encode(req.Body())", "the bytes written to the backend are not the body of the request that is handed over")
 		twice := findPath(posOf(enc), pathQuery{target: func(x ssa.Instruction) bool { return x == ssa.Instruction(enc) }, avoid: again})
 		c.Check(twice == nil, "R2", "backend writer encodes at most once per request", enc.Pos(), "no second Encode before the next dequeue", "a request can be written to the backend twice")
